@@ -451,6 +451,25 @@ func PropC12(c *vs.Case, f Factory, kind string, fixed bool) error {
 			}
 		}
 	}
+	// a 404 answered to a read of the parent itself (the uncached recheck before an adoption, the read
+	// before a finalizer or status write): either the sync is retried, or it still did everything the
+	// fault-free sync does apart from the parent's own writes - work is never dropped silently
+	if fault.Target == "api" && fault.Kind == "e404" && hit != nil && len(extra) == 0 && hit.Verb == "get" && hit.Def.Resource == scn.Cfg.ParentResource && !rateLimited && !hasAfter {
+		for _, br := range base.Work.Reqs {
+			if !br.Mutating() || !br.Accepted() || br.Def.Resource == scn.Cfg.ParentResource {
+				continue
+			}
+			found := false
+			for _, gr := range t.Reqs {
+				if gr.Verb == br.Verb && gr.Def.Resource == br.Def.Resource && gr.Name == br.Name && gr.Namespace == br.Namespace {
+					found = true
+				}
+			}
+			if !found {
+				return withTrace(vs.Violf("C12/work-dropped-without-retry", "%s was answered 404; the sync neither reported an error nor asked for a retry (queue %v), yet it skipped %s, which the fault-free sync issues", hit.String(), t.Queue, br.String()), t)
+			}
+		}
+	}
 	// isolation: a failure on one child write does not swallow the other children's requests nor the status write
 	if fault.Target == "api" && hit != nil && len(extra) == 0 && fault.Index < len(base.Work.Reqs) {
 		bhit := base.Work.Reqs[fault.Index]
